@@ -184,6 +184,19 @@ func runC14(c *Ctx) {
 			clause("decoding succeeded", T(`^\(call:invoke:codec\.decoderI\.Decode\[.*\]\(&local:v\) == nil\)$`), T(`^\(call:.*Decode.* == nil\)$`)),
 			clause("list not empty", F(`^\(call:builtin:len\(local:v\) == 0\)$`)))
 		c.Has(r4, f, "type code converted, list passed on", `^call:transport/serialize\.listToMsg\(conv:(int|wamp\.MessageType)\(.*\), local:v\)$`, 1)
+		if fn := c.P.Func(f); fn != nil {
+			for _, in := range ir.Instrs(fn) {
+				cv, ok := in.(*ssa.Convert)
+				if !ok {
+					continue
+				}
+				if b, ok := cv.Type().Underlying().(*types.Basic); ok && b.Info()&types.IsInteger != 0 {
+					narrow := b.Kind() == types.Int8 || b.Kind() == types.Uint8 || b.Kind() == types.Int16 || b.Kind() == types.Uint16
+					c.R.Check(!narrow, r4, f, "type code is not truncated: "+ir.Desc(cv), c.pos(in),
+						"the decoded type code is converted to "+b.Name()+": codes above its range wrap around and are accepted as valid message types")
+				}
+			}
+		}
 	}
 	mtl := "transport/serialize.msgToList"
 	c.Has(r4, mtl, "first element is the message's type code", `^store:makeslice\(\[\]any\)\.&\[0\]=(conv:int\()?call:invoke:wamp\.Message\.MessageType\[%msg\]\(\)\)?$`, 1)
@@ -216,4 +229,59 @@ func runC14(c *Ctx) {
 	c.Has(r5, "transport/serialize.(*BinaryData).UnmarshalJSON", "NUL prefix stripped before decoding", `^call:\(\*encoding/base64\.Encoding\)\.DecodeString\(\*g:encoding/base64\.\w+, local:s\[1:\]\)$`, 1)
 	c.Has(r5, "transport/serialize.(BinaryData).MarshalJSON", "NUL prefix added", `\("\\x00" \+ call:\(\*encoding/base64\.Encoding\)\.EncodeToString\(`, 1)
 	c.R.Floor(r5, 3)
+
+	const r6 = "C14.R6 wire layout of every message: field order, kinds and trailing-omission marks follow the WAMP message definitions"
+	// external reference: the message definitions of the WAMP specification (basic and advanced profile); '?' marks
+	// the trailing payload elements that are omitted when empty
+	layout := map[string]string{
+		"Hello": "Realm:URI Details:Dict", "Welcome": "ID:ID Details:Dict", "Abort": "Details:Dict Reason:URI",
+		"Challenge": "AuthMethod:string Extra:Dict", "Authenticate": "Signature:string Extra:Dict", "Goodbye": "Details:Dict Reason:URI",
+		"Error":       "Type:MessageType Request:ID Details:Dict Error:URI Arguments:List? ArgumentsKw:Dict?",
+		"Publish":     "Request:ID Options:Dict Topic:URI Arguments:List? ArgumentsKw:Dict?",
+		"Published":   "Request:ID Publication:ID",
+		"Subscribe":   "Request:ID Options:Dict Topic:URI",
+		"Subscribed":  "Request:ID Subscription:ID",
+		"Unsubscribe": "Request:ID Subscription:ID", "Unsubscribed": "Request:ID",
+		"Event":      "Subscription:ID Publication:ID Details:Dict Arguments:List? ArgumentsKw:Dict?",
+		"Call":       "Request:ID Options:Dict Procedure:URI Arguments:List? ArgumentsKw:Dict?",
+		"Cancel":     "Request:ID Options:Dict",
+		"Result":     "Request:ID Details:Dict Arguments:List? ArgumentsKw:Dict?",
+		"Register":   "Request:ID Options:Dict Procedure:URI",
+		"Registered": "Request:ID Registration:ID", "Unregister": "Request:ID Registration:ID", "Unregistered": "Request:ID",
+		"Invocation": "Request:ID Registration:ID Details:Dict Arguments:List? ArgumentsKw:Dict?",
+		"Interrupt":  "Request:ID Options:Dict",
+		"Yield":      "Request:ID Options:Dict Arguments:List? ArgumentsKw:Dict?",
+	}
+	nLay := 0
+	for _, nm := range sortedKeysF(layout) {
+		tn, _ := wp.Types.Scope().Lookup(nm).(*types.TypeName)
+		if tn == nil {
+			c.R.Unknown(r6, "wamp."+nm, "message struct", "-", "message struct not found")
+			continue
+		}
+		st, ok := tn.Type().Underlying().(*types.Struct)
+		if !ok {
+			c.R.Unknown(r6, "wamp."+nm, "message struct", "-", "not a struct")
+			continue
+		}
+		var got []string
+		for i := 0; i < st.NumFields(); i++ {
+			f := st.Field(i)
+			k := strings.TrimPrefix(ir.TypeStr(f.Type()), "wamp.")
+			tag, has := reflect.StructTag(st.Tag(i)).Lookup("wamp")
+			switch {
+			case !has:
+			case tag == "omitempty":
+				k += "?"
+			default:
+				k += "!unknown-tag(" + tag + ")"
+			}
+			got = append(got, f.Name()+":"+k)
+		}
+		nLay++
+		c.R.Check(strings.Join(got, " ") == layout[nm], r6, "wamp."+nm, "field layout", c.P.Pos(tn.Pos()),
+			"wamp."+nm+" is laid out as ["+strings.Join(got, " ")+"], the message definition is ["+layout[nm]+"]")
+	}
+	c.R.Check(nLay == nStruct, r6, "wamp", "every message struct has a reference layout", "-", fmt.Sprintf("%d message structs, %d reference layouts", nStruct, nLay))
+	c.R.Floor(r6, 25)
 }
